@@ -232,9 +232,36 @@ def run(ck):
                                         "src.parsers.xmap_alignment_pair_parser", "src.correlation.bionano_alignment"), floor=15)
     parser_maps(ck)
     pair_parsers(ck)
+    ck.clause("C18.18", "standard output carries the XMAP and nothing else (without -o the file *is* stdout): no print / sys.stdout.write "
+                        "on the run path outside the writer - a status line lands among the records, and the reader takes every "
+                        "non-comment line for a record")
+    from ..rules.common import run_reach as _rr18
+    from ..rules import effects as _E18
+    n_rp = 0
+    for f0 in _rr18(ck.ctx):
+        if f0.is_lambda or f0.module.is_test or not f0.module.name.startswith("src.") or f0.module.name.startswith(("src.diagnostic", "src.plot")):
+            continue
+        n_rp += 1
+        for c0 in _E18.iter_calls(f0):
+            txt = ast.unparse(c0.func)
+            to_stdout = False
+            if isinstance(c0.func, ast.Name) and c0.func.id == "print":
+                fkw = [k for k in c0.keywords if k.arg == "file"]
+                to_stdout = not fkw or ast.unparse(fkw[0].value) in ("sys.stdout", "stdout")
+            elif txt in ("sys.stdout.write", "sys.stdout.writelines", "stdout.write"):
+                to_stdout = True
+            if to_stdout:
+                ck.violation("C18.18", short(f0) + ":stdout", where(f0, c0),
+                             "a line is written to standard output on the run path: when -o is omitted it becomes part of the XMAP - a "
+                             "line without a leading '#' is read back as one more (all-NaN) record and the reader fails",
+                             found=ast.unparse(c0)[:120], required="status messages to stderr (or as '#' comment lines through the writer)")
+    ck.floor("C18.18 functions scanned on the run path", n_rp, 100)
+    from . import c08 as _c08
+    ck.clause("C18.17", "every file COMA writes has a name of its own (as C08.2's naming rule): an additional file opened under the main "
+                        "file's path leaves one file with the remains of two - unreadable")
+    _c08._file_naming(ck, rule="C18.17")
     ck.clause("C18.15", "a joined record lists the pairs of its two resolved segments (as C08.6): a record that lost its pairs is written "
                         "with an empty Alignment cell, which no pair parser can read back")
-    from . import c08 as _c08
     _c08._joined_row(_RV18(ck, {"C08.6": "C18.15"}))
     main_output_always_written(ck, "C18.14")
     w = extract_writer(ck)
